@@ -17,6 +17,24 @@ NOT_APPLICABLE = {
 NOT_BUILT = {}
 
 CLAIMED = {
+    "C04": {
+        "level": "fault_enumeration",
+        "text": "Per run a generated pre-state (packs near the autopack threshold, 2a or pack-0.92) and one scenario (commit, pull of k revisions, pack, pack+clean) are fixed; a fault-free pass counts the scenario's mutating store operations, then the scenario is re-executed from the identical pre-state with the process crashed at operation k (dropped / applied / torn tail) - thorough: every k, quick: a seeded sample - and a fresh process checks old-or-new revision set, full readability against the model, check(), and that re-running the scenario and new commits succeed.",
+        "note": "Crash = process stop with ordered durable ops; put/rename/move/mkdir atomic, append and stream writes tearable; break_lock applied before re-use; source repository fault-free.",
+        "technique": "deterministic simulation: per-run enumeration of crash points at the transport seam, recovery oracle by a fresh simulated process",
+    },
+    "C05": {
+        "level": "exploration",
+        "text": "Seeded search over interleavings of 2-3 simulated processes (commit, pull, pack, read; private objects, one shared pack repository) pre-empted at every store operation, with virtual-clock lock polling and optional crash of one actor; oracles: durability of acknowledged write groups (fresh process lists and reads everything, check() clean), readers never fail on listed revisions, each pack-names write equals (disk before + produced - consumed) derived at the seam, no pack leaves packs/ while listed.",
+        "note": "Processes share one interpreter but no objects; acknowledged = the committing call returned; two open findings recorded in known_findings.json.",
+        "technique": "deterministic simulation: seeded scheduler over real pack-repository code, seam-level monitors, model-based final oracle",
+    },
+    "C07": {
+        "level": "exploration",
+        "text": "Run-time monitor on every autopack planner call reached by simulated single-process and two-process histories whose batch sizes cross the digit-sum bound: no exception, empty plan within the bound, single combination of >=2 packs whose count is the sum, pack count after execution within the bound (single-process histories).",
+        "note": "Only inputs that histories produce are judged; the input-quantified part of C07 beyond reachable states is not claimed.",
+        "technique": "deterministic simulation with an invariant monitor on the planner inside simulated histories",
+    },
     "C26": {
         "level": "exploration",
         "text": "Seeded search over interleavings of 2-4 simulated lockers (attempt/wait/confirm/unlock/peek->force_break/steal-dead/die, optional crash point) pre-empted at every transport operation of the real LockDir; ghost-state mutual exclusion, break-only-examined and steal-policy oracles after every operation. Sampling, not proof.",
